@@ -17,7 +17,7 @@ from dsim.world import World
 ID = 'C10'
 LEVEL = 'exploration'
 CLASSES = [('walk', 1)]
-TIERS = {'quick': {'runs': 6000}}
+TIERS = {'quick': {}}
 NAMES = ['diffx', 'preamble', 'meta', 'change', 'file', 'diff']
 UNKNOWN = ['foo', 'files', 'changes', 'x', 'diffxx', 'prea']
 CANDIDATES = ['.' * lvl + n for lvl in range(0, 5) for n in NAMES] + \
